@@ -3,6 +3,7 @@
   The `Vec<char>` + cursor of the Rust code is the remaining suffix `List Char` here.
 -/
 import Pakhi.Model.Num
+import Pakhi.Model.Words
 
 namespace Pakhi
 
@@ -26,10 +27,10 @@ deriving DecidableEq, Repr, Inhabited
 
 /-- the 13-entry keyword table of `lexer::keyword` -/
 def keywordTable : List (Str × TK) :=
-  [ ("নাম".toList, .kVar), ("যদি".toList, .kIf), ("অথবা".toList, .kElse), ("লুপ".toList, .kLoop),
-    ("ফাং".toList, .kFunc), ("ফেরত".toList, .ret), ("থামাও".toList, .brk), ("আবার".toList, .cont),
-    ("দেখাও".toList, .print), ("_দেখাও".toList, .printNoEOL), ("সত্য".toList, .bool true),
-    ("মিথ্যা".toList, .bool false), ("মডিউল".toList, .import) ]
+  [ (W.kwVar, .kVar), (W.kwIf, .kIf), (W.kwElse, .kElse), (W.kwLoop, .kLoop),
+    (W.kwFunc, .kFunc), (W.kwReturn, .ret), (W.kwBreak, .brk), (W.kwContinue, .cont),
+    (W.kwPrint, .print), (W.kwPrintNoEOL, .printNoEOL), (W.kwTrue, .bool true),
+    (W.kwFalse, .bool false), (W.kwImport, .import) ]
 
 def keyword? (w : Str) : Option TK :=
   (keywordTable.find? (fun p => p.1 == w)).map (·.2)
